@@ -213,6 +213,36 @@ theorem C02_code_set_whole (s : PyFut.S) (m : St) (t : Nat) (hr : Rel s m) :
     rw [hm]
     simp only [hl]
 
+/-- **add_done_callback as a whole**: on a pending future the callback is stored and NOT called; on a done future it is called
+directly, once, by the registering thread, after the lock has been released (`addDirect t c ; callDirect t c` in the model) - and
+if it raises, the exception reaches that caller (the user's own thread). -/
+theorem C02_code_add_whole (s : PyFut.S) (m : St) (t : Nat) (hr : Rel s m) (hfresh : s.fn ∉ m.registered) :
+    (s.st = .pending →
+      runMethod K16.addDoneCallback s = ({ s with cbs := s.cbs ++ [s.fn] }, .returned none) ∧
+      ∃ m', step m (.addStore t s.fn) = some m' ∧ m'.stored = m.stored ++ [s.fn] ∧ m'.invoked = m.invoked) ∧
+    (s.st ≠ .pending →
+      (runMethod K16.addDoneCallback s).1.direct = s.direct ++ [s.fn] ∧ (runMethod K16.addDoneCallback s).1.cbs = s.cbs ∧
+      (runMethod K16.addDoneCallback s).2 = (if s.raises s.fn then .raisedUser else .normal) ∧
+      ∃ m', run m [.addDirect t s.fn, .callDirect t s.fn] = some m' ∧ m'.invoked = m.invoked ++ [s.fn] ∧ m'.stored = m.stored) := by
+  obtain ⟨h1, h2, h3⟩ := hr
+  have hl := (add_locked s).1
+  have htail := (add_locked s).2
+  constructor
+  · intro hp
+    rw [if_pos hp] at hl
+    refine ⟨by unfold runMethod; rw [hl], { m with stored := m.stored ++ [s.fn], registered := m.registered ++ [s.fn] }, ?_, rfl, rfl⟩
+    simp [step, h1, hp, hfresh]
+  · intro hp
+    rw [if_neg hp] at hl
+    have hrun : runMethod K16.addDoneCallback s = exec .callFn s := by unfold runMethod; rw [hl, htail]
+    rw [hrun]
+    refine ⟨by simp [exec], by simp [exec], by simp [exec], ?_⟩
+    have h1' : step m (.addDirect t s.fn) = some { m with direct := m.direct ++ [(t, s.fn)], registered := m.registered ++ [s.fn] } := by
+      simp [step, h1, hp, hfresh]
+    refine ⟨{ m with direct := (m.direct ++ [(t, s.fn)]).erase (t, s.fn), registered := m.registered ++ [s.fn], invoked := m.invoked ++ [s.fn] }, ?_, rfl, rfl⟩
+    have hne : ¬ m.st = .pending := by rw [h1]; exact hp
+    simp [run, runFrom, step, hne, hfresh]
+
 /-- no class other than `_Future` redefines a protocol method (f_nocancel's `cancel` is the deliberate exception) -/
 theorem C02_code_no_overrides : K16.protocolOverrides = [] := by decide
 
